@@ -2,7 +2,8 @@
 // double.  The real RetrieveLoop runs unmodified in a testing/synctest bubble and is woken through
 // m.VerifRetrieveCh(); processNextDAHeaderAndData is also called directly.  Observed: m.VerifDAHeight()
 // after every item, the GetIDs/Get calls, the events taken from headerInCh/dataInCh, panics, and the
-// DA-included marks of the caches.  Writes cases_C09.v (Model/Retriever.v) and result.json (Go oracle).
+// DA-included marks of the caches.  The node is built with the chain's SignaturePayloadProvider (Replay.Scheme: the
+// default or one of two chain-specific ones); genuine headers are signed over the payload it defines.  Writes cases_C09.v (Model/Retriever.v) and result.json (Go oracle).
 // Tick scenario (genTickCase): long catch-up runs during which the DA double sends DA-block ticks on
 // m.retrieveCh from inside GetIDs (= while an iteration runs and the continuation token is outstanding), so
 // that the loop's select finds both of its channels ready; compared call by call with the two-channel loop
@@ -13,6 +14,7 @@ package c09
 import (
 	"bytes"
 	"context"
+	"crypto/sha256"
 	"encoding/binary"
 	"errors"
 	"fmt"
@@ -47,7 +49,9 @@ const chainID = "c09"
 
 // ---- replayable description of one case ----------------------------------------------------------
 
-// Seg is a run of blobs of one class: H i (signed header i), D i (signed data i), E (signed data without
+// Seg is a run of blobs of one class: H i (signed header i: 0..3 the proposer's, over the payload of the chain's
+// SignaturePayloadProvider; 4,5 forgeries; 6,7 the proposer's signature over the payload of ANOTHER provider than
+// the chain's), D i (signed data i), E (signed data without
 // txs), N i (signed data i without Metadata), X i (the proposer's signature of data i over a tx list that
 // differs from the posted one by one zero-length entry), J k (junk of kind k); junk runs may be long.
 // The tx lists of the data blobs are boundary-heavy (genTxs): zero-length, one-byte, repeated and large
@@ -85,6 +89,10 @@ type Replay struct {
 	SeenD   []int    `json:"seen_d"`
 	DA      []Height `json:"da"`      // heights boot, boot+1, ...
 	History []string `json:"history"` // "signal" | "proc"
+	// Scheme: the chain's SignaturePayloadProvider (ManagerOptions.SignaturePayloadProvider), an index into
+	// payloadProviders; 0 = types.DefaultSignaturePayloadProvider.  The node is built with it and the proposer's
+	// genuine headers are signed over the payload it defines.
+	Scheme int `json:"scheme,omitempty"`
 	// Backpressure: instead of a scripted history, the back-pressure scenario (see runBackpressure)
 	Backpressure bool `json:"backpressure,omitempty"`
 	// Ticks: the tick scenario (see genTickCase): a long DA, History = wake-ups sent while the loop is quiescent,
@@ -103,7 +111,8 @@ func (rp *Replay) boot() uint64 {
 
 const (
 	nHdr      = 4 // genuine headers 0..3; 4,5 = forgeries that claim the proposer's address (junk for the code)
-	nHdrAll   = 6
+	nHdrForge = 6 // 6,7 = signed by the proposer, but over the payload of another provider than the chain's
+	nHdrAll   = 8
 	nData     = 4 // genuine data 0..3; 4 = forgery claiming the proposer's address
 	nDataAll  = 5
 	nJunkKind = 16
@@ -111,8 +120,10 @@ const (
 
 type pool struct {
 	gen      genesis.Genesis
+	scheme   int // the chain's provider
 	hdrBlob  [][]byte
 	hdrHash  []string
+	hdrSig   []int // per header id: the provider over whose payload the signature was made
 	dataBlob [][]byte
 	noMeta   [][]byte // same txs as dataBlob[i], Metadata absent
 	dataHash []string
@@ -239,9 +250,38 @@ func mkHeader(r *rand.Rand, height uint64, proposer []byte) types.Header {
 	}
 }
 
-// signHeader signs h with k and names (addr, k.pub) as signer.
-func signHeader(h types.Header, k keyset, signerAddr []byte) *types.SignedHeader {
-	bz, err := h.MarshalBinary()
+// Chain-specific signature payloads (ManagerOptions.SignaturePayloadProvider).  0 is the default (the header's
+// protobuf bytes); 1 a domain-separated digest of them; 2 a canonical sign-bytes encoding of selected fields (the
+// shape an ABCI-compatible chain uses).  Pure functions of the header; pairwise different payloads for every header.
+var payloadProviders = []types.SignaturePayloadProvider{
+	types.DefaultSignaturePayloadProvider,
+	func(h *types.Header) ([]byte, error) {
+		bz, err := h.MarshalBinary()
+		if err != nil {
+			return nil, err
+		}
+		sum := sha256.Sum256(append([]byte("c09/header/v1:"), bz...))
+		return sum[:], nil
+	},
+	func(h *types.Header) ([]byte, error) {
+		var b bytes.Buffer
+		b.WriteString("sign-bytes|")
+		b.WriteString(h.ChainID())
+		var n [16]byte
+		binary.BigEndian.PutUint64(n[:8], h.Height())
+		binary.BigEndian.PutUint64(n[8:], h.BaseHeader.Time)
+		b.Write(n[:])
+		b.Write(h.Hash())
+		b.Write(h.ProposerAddress)
+		return b.Bytes(), nil
+	},
+}
+
+var schemeNames = []string{"default", "custom-domain-separated-digest", "custom-canonical-sign-bytes"}
+
+// signHeader signs h with k over the payload that provider scheme defines and names (addr, k.pub) as signer.
+func signHeader(h types.Header, k keyset, signerAddr []byte, scheme int) *types.SignedHeader {
+	bz, err := payloadProviders[scheme](&h)
 	must(err)
 	sig, err := k.priv.Sign(bz)
 	must(err)
@@ -263,20 +303,21 @@ func mb(x interface{ MarshalBinary() ([]byte, error) }) []byte {
 }
 
 // maxLarge bounds the size of a "large" transaction (the back-pressure scenario keeps > 20000 decoded copies alive)
-func newPool(r *rand.Rand, maxLarge int) *pool {
-	p := &pool{}
+func newPool(r *rand.Rand, maxLarge int, scheme int) *pool {
+	p := &pool{scheme: scheme}
 	prop := newKey(r)
 	foreign := newKey(r)
 	p.gen = genesis.NewGenesis(chainID, 1, time.Unix(1700000000, 0).UTC(), prop.sg.Address)
 
-	for i := 0; i < nHdrAll; i++ {
+	for i := 0; i < nHdrForge; i++ { // the remaining ones are drawn at the end (the draws here stay as they were)
 		k := prop
 		if i >= nHdr {
 			k = foreign // forged: foreign key, but header and signer both claim the proposer's address
 		}
-		sh := signHeader(mkHeader(r, uint64(1+r.Intn(50)), prop.sg.Address), k, prop.sg.Address)
+		sh := signHeader(mkHeader(r, uint64(1+r.Intn(50)), prop.sg.Address), k, prop.sg.Address, scheme)
 		p.hdrBlob = append(p.hdrBlob, mb(sh))
 		p.hdrHash = append(p.hdrHash, sh.Hash().String())
+		p.hdrSig = append(p.hdrSig, scheme)
 	}
 	for i := 0; i < nDataAll; i++ {
 		k := prop
@@ -349,9 +390,9 @@ func newPool(r *rand.Rand, maxLarge int) *pool {
 	}
 	flip := func(b []byte, at int) []byte { c := append([]byte{}, b...); c[at] ^= 0x41; return c }
 	pm := func(m proto.Message) []byte { b, err := proto.Marshal(m); must(err); return b }
-	fh := signHeader(mkHeader(r, 9, foreign.sg.Address), foreign, foreign.sg.Address) // valid, but another sequencer
-	fhp := signHeader(mkHeader(r, 9, prop.sg.Address), foreign, foreign.sg.Address)   // proposer in header, signer = foreign
-	ghd := signHeader(mkHeader(r, 9, prop.sg.Address), prop, prop.sg.Address)
+	fh := signHeader(mkHeader(r, 9, foreign.sg.Address), foreign, foreign.sg.Address, scheme) // valid, but another sequencer
+	fhp := signHeader(mkHeader(r, 9, prop.sg.Address), foreign, foreign.sg.Address, scheme)   // proposer in header, signer = foreign
+	ghd := signHeader(mkHeader(r, 9, prop.sg.Address), prop, prop.sg.Address, scheme)
 	badsigH := *ghd
 	badsigH.Signature = flip(ghd.Signature, 5)
 	nosigH := *ghd
@@ -411,6 +452,16 @@ func newPool(r *rand.Rand, maxLarge int) *pool {
 		13: {pm(&pb.SignedHeader{}), pm(&pb.SignedHeader{Header: &pb.Header{}}), pm(&pb.SignedData{Data: &pb.Data{Txs: [][]byte{{1}}}}), pm(&pb.SignedHeader{Signature: rbytes(r, 64)})},                                                                    // structurally valid, empty
 		14: {append(append([]byte{}, gh...), 0x0a), append(append([]byte{}, gd...), 0xff, 0x01)},                                                                                                                                                            // genuine bytes with trailing garbage
 		15: {[]byte("{\"header\":{}}"), []byte(strings.Repeat("\x00", 50)), []byte(strings.Repeat("\x0a\x00", 40))},                                                                                                                                         // text / zeros / repeated empty fields
+	}
+	// headers nHdrForge..: the proposer's own key and address, but the signature covers the payload of ANOTHER
+	// provider than the chain's (on a custom chain: the default payload and the other custom one; on a default
+	// chain: the two custom ones) — what a proposer configured for a different chain rule would post
+	for i := nHdrForge; i < nHdrAll; i++ {
+		other := (scheme + 1 + (i - nHdrForge)) % len(payloadProviders)
+		sh := signHeader(mkHeader(r, uint64(1+r.Intn(50)), prop.sg.Address), prop, prop.sg.Address, other)
+		p.hdrBlob = append(p.hdrBlob, mb(sh))
+		p.hdrHash = append(p.hdrHash, sh.Hash().String())
+		p.hdrSig = append(p.hdrSig, other)
 	}
 	return p
 }
@@ -634,8 +685,10 @@ func newManager(ctx context.Context, p *pool, rp *Replay, da coreda.DA) (*block.
 			return nil, err
 		}
 	}
-	// non-aggregator: no signer
-	return block.NewManager(ctx, nil, cfg, p.gen, st, coreexec.NewDummyExecutor(), nil, da, theLogger, nil, nil, nil, nil, block.NopMetrics(), 1, 1, block.DefaultManagerOptions())
+	// non-aggregator: no signer; the chain's signature payload provider
+	opts := block.DefaultManagerOptions()
+	opts.SignaturePayloadProvider = payloadProviders[rp.Scheme]
+	return block.NewManager(ctx, nil, cfg, p.gen, st, coreexec.NewDummyExecutor(), nil, da, theLogger, nil, nil, nil, nil, block.NopMetrics(), 1, 1, opts)
 }
 
 func (p *pool) hdrIDOf(hash string) int {
@@ -856,12 +909,13 @@ func runBackpressure(t *testing.T, p *pool, rp *Replay) (viol, what []string, st
 			}
 		}
 		da.used = make([]int, len(layout))
-		m, err := newManager(ctx, p, &Replay{Start: boot}, da)
+		m, err := newManager(ctx, p, &Replay{Start: boot, Scheme: rp.Scheme}, da)
 		if err != nil {
 			fail("harness-error", err.Error())
 			return
 		}
 		capH, capD := cap(m.VerifHeaderInCh()), cap(m.VerifDataInCh())
+		stats["chain-signature-payload-provider"] = rp.Scheme
 		stats["cap-header-ch"], stats["cap-data-ch"] = capH, capD
 		stats["genuine-headers-on-da"], stats["genuine-data-on-da"] = len(wantH), len(wantD)
 		if len(wantH) <= capH || len(wantD) <= capD {
@@ -1281,8 +1335,12 @@ func genCase(r *rand.Rand, seed int64, c int, tier string) *Replay {
 			rp.History = append(rp.History, "signal")
 		}
 	}
+	rp.Scheme = genScheme(r)
 	return rp
 }
+
+// half of the chains sign headers over the default payload, the others over a chain-specific one
+func genScheme(r *rand.Rand) int { return []int{0, 0, 1, 2}[r.Intn(4)] }
 
 // ---- tick scenario: DA-block ticks arrive DURING a catch-up run -------------------------------------------
 //
@@ -1349,6 +1407,7 @@ func genTickCase(r *rand.Rand, seed int64, c int, tier string) *Replay {
 	for i := 1 + r.Intn(4); i > 0; i-- {
 		rp.History = append(rp.History, "signal")
 	}
+	rp.Scheme = genScheme(r)
 	return rp
 }
 
@@ -1356,7 +1415,7 @@ func genTickCase(r *rand.Rand, seed int64, c int, tier string) *Replay {
 // choices in select and differs between runs)
 func tickInputKey(rp *Replay) string {
 	var sb strings.Builder
-	fmt.Fprintf(&sb, "%d/%d/%v/%d:", rp.Stored, rp.Start, rp.SeenH, len(rp.History))
+	fmt.Fprintf(&sb, "%d/%d/%v/%d/s%d:", rp.Stored, rp.Start, rp.SeenH, len(rp.History), rp.Scheme)
 	for _, h := range rp.DA {
 		fmt.Fprintf(&sb, "%v%v;", h.Blobs, h.Outs)
 	}
@@ -1446,8 +1505,8 @@ func tcaseCoq(p *pool, rp *Replay, cr *caseResult) string {
 		}
 		segsOut = append(segsOut, fmt.Sprintf("{| ts_seen := %s;\n    ts_obs := OB %d (%s) %s %s %s %d |}", strings.Join(seen, "++"), o.Cursor, strings.Join(calls, "++"), evCoq(o.HEv), evCoq(o.DEv), dtxCoq(o.DEv), o.Res))
 	}
-	return fmt.Sprintf("{| tc_cfg := {| c_stored := %d; c_start := %d; c_seen_h := %s; c_seen_d := %s |};\n tc_da := %s;\n tc_segs := [%s] |}",
-		rp.Stored, rp.Start, nlist(rp.SeenH), nlist(rp.SeenD), strings.Join(da, "++"), strings.Join(segsOut, ";\n  "))
+	return fmt.Sprintf("{| tc_cfg := {| c_stored := %d; c_start := %d; c_seen_h := %s; c_seen_d := %s |};\n tc_scheme := %d;\n tc_da := %s;\n tc_segs := [%s] |}",
+		rp.Stored, rp.Start, nlist(rp.SeenH), nlist(rp.SeenD), rp.Scheme, strings.Join(da, "++"), strings.Join(segsOut, ";\n  "))
 }
 
 // ---- Coq terms ----------------------------------------------------------------------------------------------
@@ -1457,10 +1516,10 @@ func tcaseCoq(p *pool, rp *Replay, cr *caseResult) string {
 // CLASS of such a blob is computed by the model (Model/Retriever.v classify_sd), not assigned here.
 func segCoq(p *pool, s Seg) string {
 	switch {
-	case s.C == "H" && s.I >= nHdr:
-		return "JN 100 1" // forged header claiming the proposer's address
+	case s.C == "H" && s.I >= nHdr && s.I < nHdrForge:
+		return fmt.Sprintf("PHF %d %d", s.I, p.hdrSig[s.I]) // forged header claiming the proposer's address
 	case s.C == "H":
-		return fmt.Sprintf("PH %d", s.I)
+		return fmt.Sprintf("PH %d %d", s.I, p.hdrSig[s.I]) // whether the node admits it is computed by the model
 	case s.C == "D":
 		return fmt.Sprintf("PD %d true %s [%s]", s.I, vgen.Bool(s.I < nData), p.dataTxs[s.I])
 	case s.C == "E":
@@ -1563,8 +1622,8 @@ func caseCoq(p *pool, rp *Replay, cr *caseResult) string {
 	for i, v := range cr.dmarks {
 		mk(true, i, v)
 	}
-	return fmt.Sprintf("{| rc_cfg := {| c_stored := %d; c_start := %d; c_seen_h := %s; c_seen_d := %s |};\n rc_da := [%s];\n rc_hist := [%s];\n rc_obs := [%s];\n rc_marks := [%s] |}",
-		rp.Stored, rp.Start, nlist(rp.SeenH), nlist(rp.SeenD), strings.Join(hs, ";\n  "), strings.Join(items, ";"), strings.Join(obs, ";\n  "), strings.Join(marks, ";"))
+	return fmt.Sprintf("{| rc_cfg := {| c_stored := %d; c_start := %d; c_seen_h := %s; c_seen_d := %s |};\n rc_scheme := %d;\n rc_da := [%s];\n rc_hist := [%s];\n rc_obs := [%s];\n rc_marks := [%s] |}",
+		rp.Stored, rp.Start, nlist(rp.SeenH), nlist(rp.SeenD), rp.Scheme, strings.Join(hs, ";\n  "), strings.Join(items, ";"), strings.Join(obs, ";\n  "), strings.Join(marks, ";"))
 }
 
 // ---- shrinking ------------------------------------------------------------------------------------------------
@@ -1581,6 +1640,7 @@ func cloneRP(rp *Replay) *Replay {
 	return &c
 }
 
+// (the chain's provider rp.Scheme is not shrunk: the pool's headers are signed under it)
 func shrink(t *testing.T, p *pool, rp *Replay, sig string) *Replay {
 	fails := func(c *Replay) bool {
 		r := runCase(t, p, c)
@@ -1728,7 +1788,7 @@ func TestVerif(t *testing.T) {
 			}
 		}
 		// one back-pressure scenario per run (oracle only; not part of the Coq cases)
-		jobs = append(jobs, &Replay{Seed: e.Seed, Case: 0, Backpressure: true})
+		jobs = append(jobs, &Replay{Seed: e.Seed, Case: 0, Backpressure: true, Scheme: genScheme(caseRng(e.Seed, 7776))})
 		for c := 0; c < e.N; c++ {
 			jobs = append(jobs, nil)
 		}
@@ -1757,7 +1817,11 @@ func TestVerif(t *testing.T) {
 		if rp.Backpressure {
 			maxLarge = 300
 		}
-		p := newPool(rand.New(rand.NewSource(rp.Seed*7919+int64(rp.Case)+17)), maxLarge)
+		if rp.Scheme < 0 || rp.Scheme >= len(payloadProviders) {
+			t.Fatalf("replay names signature payload provider %d, known: 0..%d", rp.Scheme, len(payloadProviders)-1)
+		}
+		p := newPool(rand.New(rand.NewSource(rp.Seed*7919+int64(rp.Case)+17)), maxLarge, rp.Scheme)
+		res.Count("chain-signature-payload:" + schemeNames[rp.Scheme])
 		if rp.Backpressure {
 			viol, what, stats := runBackpressure(t, p, rp)
 			res.Evaluations++
@@ -1825,6 +1889,15 @@ func TestVerif(t *testing.T) {
 			n := 0
 			for _, s := range h.Blobs {
 				res.Count("blob:" + s.C)
+				if s.C == "H" {
+					kind := "genuine"
+					if s.I >= nHdrForge {
+						kind = "proposer-signed-over-another-providers-payload"
+					} else if s.I >= nHdr {
+						kind = "forged"
+					}
+					res.Count("header:" + kind + ",chain-payload=" + schemeNames[rp.Scheme])
+				}
 				if s.C == "J" {
 					res.Count(fmt.Sprintf("junk-kind:%02d", s.I))
 				}
@@ -1914,7 +1987,7 @@ func TestVerif(t *testing.T) {
 		res.Replays[fmt.Sprint(len(cases)+i)] = rp // tick cases are numbered after the ordinary ones
 	}
 	res.Distinct = len(distinct)
-	res.Rule = "real non-aggregator block.Manager (NewManager) on a scripted DA double; 1-6 (thorough 1-12) DA heights from max(stored, configured start), start heights from 0 to 2^62; per height 0-7 blobs or 100-500 blobs (several chunks, incl. exact multiples of 100) mixing real proposer-signed headers/data (ed25519; the tx list of a data blob has 1-5 transactions drawn per position from zero-length (26%), one byte (12%), repetition of an earlier one (14%), large 1.5-4.5 KB or 70-130 KB (8%), 8-31 random bytes (the rest) - lists of zero-length transactions only included; the tx lists of a case are pairwise distinct), the proposer's signature over a tx list that differs from the posted one by one zero-length entry (rejected), forgeries (foreign key claiming the proposer's address, rejected), signed data without txs / without metadata (ignored), and 16 kinds of junk (empty, random, truncated genuine, absurd length fields, other message types, foreign / corrupted / missing signatures, foreign key types, undecodable keys, trailing garbage, text); per height 0-4 scripted fetch outcomes (listing error with plain / not-found / from-the-future / both texts, nil listing, error on chunk i, ok) or runs of 9-13 errors, then usually ok; histories of 1-6 items: wake-ups of the real RetrieveLoop under testing/synctest (80%) and direct calls of processNextDAHeaderAndData; some ids pre-marked seen. non-trivial = at least 3 DA calls and 2 heights; distinct = distinct Coq case terms; every data event is recorded with the tx list it carried (byte strings numbered per case, 0 = zero-length) and compared with the posted list by the oracle (handed-data-not-as-posted) and by the model (mismatch code 8)"
+	res.Rule = "real non-aggregator block.Manager (NewManager) on a scripted DA double; 1-6 (thorough 1-12) DA heights from max(stored, configured start), start heights from 0 to 2^62; per height 0-7 blobs or 100-500 blobs (several chunks, incl. exact multiples of 100) mixing real proposer-signed headers/data (ed25519; the tx list of a data blob has 1-5 transactions drawn per position from zero-length (26%), one byte (12%), repetition of an earlier one (14%), large 1.5-4.5 KB or 70-130 KB (8%), 8-31 random bytes (the rest) - lists of zero-length transactions only included; the tx lists of a case are pairwise distinct), the proposer's signature over a tx list that differs from the posted one by one zero-length entry (rejected), forgeries (foreign key claiming the proposer's address, rejected), signed data without txs / without metadata (ignored), and 16 kinds of junk (empty, random, truncated genuine, absurd length fields, other message types, foreign / corrupted / missing signatures, foreign key types, undecodable keys, trailing garbage, text); per height 0-4 scripted fetch outcomes (listing error with plain / not-found / from-the-future / both texts, nil listing, error on chunk i, ok) or runs of 9-13 errors, then usually ok; the node is built with the chain's SignaturePayloadProvider (ManagerOptions): the default one in half of the cases, otherwise one of two chain-specific ones (domain-separated SHA-256 digest of the header bytes; canonical sign-bytes encoding), the proposer's genuine headers and the forgeries are signed over the payload that provider defines, and two more header blobs per case carry the proposer's signature over the payload of ANOTHER provider than the chain's (not valid on this chain: rejected; the model computes admission from signer + signed payload + configured provider); histories of 1-6 items: wake-ups of the real RetrieveLoop under testing/synctest (80%) and direct calls of processNextDAHeaderAndData; some ids pre-marked seen. non-trivial = at least 3 DA calls and 2 heights; distinct = distinct Coq case terms; every data event is recorded with the tx list it carried (byte strings numbered per case, 0 = zero-length) and compared with the posted list by the oracle (handed-data-not-as-posted) and by the model (mismatch code 8)"
 	res.Rule += "; PLUS the tick scenario (one case per ten, at least 8): 100-400 (thorough up to 900) DA heights, 3/4 empty, the rest 1-3 blobs, a third of the cases served at once throughout, otherwise 6% of the heights with 1-3 retried errors, 1% not yet there (from the future), 0.5% with 10-12 errors, 2% confirmed not-found; the loop is woken 1-4 times while quiescent and the DA double sends DA-block ticks (non-blocking sends on retrieveCh) from inside GetIDs, i.e. while iterations run and the continuation token is outstanding (one tick only / 2% / 10% / 35% / every call), so that select finds both channels ready and takes either; compared call by call with the two-channel loop model (lturn), liveness oracle: the loop goes quiet only at a height it could not pass; distinct for these = distinct scripted inputs"
 	res.Cases = len(cases) + len(tcases)
 	header := "From Coq Require Import NArith List Bool.\nFrom Verif Require Import Model.Retriever Check.RetrieverCheck.\nOpen Scope N_scope."
